@@ -212,8 +212,8 @@ func round(s *slip.Scope, f slip.Object, args slip.List, depth int) slip.Values 
 		} else if ds < 0 {
 			_ = zq.Neg(&zq)
 		}
-		q = (*slip.Bignum)(&zq)
-		r = (*slip.Bignum)(&zr)
+		q = reduceInteger(&zq)
+		r = reduceInteger(&zr)
 	case *slip.Ratio:
 		var (
 			zp big.Rat
@@ -264,8 +264,8 @@ func round(s *slip.Scope, f slip.Object, args slip.List, depth int) slip.Values 
 			_ = bi.Neg(&bi)
 		}
 
-		q = (*slip.Bignum)(&bi)
-		r = (*slip.Ratio)(&zr)
+		q = reduceInteger(&bi)
+		r = reduceRational(&zr)
 	case slip.Complex:
 		slip.TypePanic(s, depth, "number", tn, "real")
 	}
